@@ -49,9 +49,12 @@ RULE = ("E1: Blast/SVDMimo/GMDMimo on every shape 1<=Nt<=Nr<=4 (all families) an
         "(scheme, channel form, family, member, shape, block count).  "
         "E3: ONE object per scheme, every history <= depth 4 (thorough 5) over {set_channel_matrix(3 channels "
         "incl. another shape and a 1-D form), set_noise_var(None|0.0|0.5|0.01) where the scheme has it, encode, "
-        "decode, calc_linear_SINRs(0.05|2), calc_SINRs(0.05), _calc_precoder(ch), _calc_receive_filter(ch, None|0.05)}; in every state decode(H_cur @ encode(d)) == d when the current noise variance is 0/None, "
+        "decode, calc_linear_SINRs(0.05|2), calc_SINRs(0.05), _calc_precoder(ch), _calc_receive_filter(ch, None|0.05), invalid calls (negative noise variance, channel of a shape the scheme rejects, data length not a multiple of the layers: must raise ValueError and leave the object digest unchanged)}; in every state decode(H_cur @ encode(d)) == d when the current noise variance is 0/None, "
         "encode/decode agree with a freshly built object of the current (channel, noise_var), Blast/MRC decode "
         "equals sqrt(Nt) W_MMSE(H_cur, noise_cur) y from the harness SVD, Nr/Nt/layers follow the current channel; "
+        "Also FIVE live objects (2 Blast, GMDMimo, SVDMimo, MRC) used alternately, every sequence <= depth 3 "
+        "(thorough 4) of {set_noise_var(0.5|None), set_channel_matrix(other), encode+decode+calc_SINRs} on any of "
+        "them; afterwards every object must still recover its data / equal a lone object of its own configuration; "
         "states are merged only on identical (object digest incl. any cache, model channel, model noise)")
 
 KAPPA_MAX = 1e4
@@ -212,10 +215,12 @@ def run_roundtrip(chk, case):
             chk.fail((scheme, "encode_shape"), case, observed=x.shape, expected="(%d, uses)" % nt)
             return
         # energy per channel use
-        e_tx = float(np.sum(np.abs(x) ** 2)) / x.shape[1]
-        e_d = float(np.mean(np.abs(d) ** 2))
+        e_tx = float(np.sum(np.abs(x) ** 2)) / max(x.shape[1], 1)
+        e_d = float(np.mean(np.abs(d) ** 2)) if L else 0.0
         chk.count("eval_energy")
-        if not N.close(e_tx, e_d, 1.0, C_RT):
+        if L == 0 and x.shape[1] != 0:
+            chk.fail((scheme, "encode_shape", "empty_block"), case, observed=x.shape, expected=(nt, 0))
+        if L and not N.close(e_tx, e_d, 1.0, C_RT):
             chk.fail((scheme, "tx_energy"), case, observed=e_tx, expected=e_d,
                      msg="mean transmitted energy per channel use != mean symbol energy "
                          "(ratio %.6g)" % (e_tx / e_d))
@@ -332,7 +337,19 @@ def run_filters(chk, case):
                          observed=N.err(G, pinv_ref), expected=0)
         B0 = np.asarray(M.Blast._calc_receive_filter(np.array(H), 0.0))
         Bn = np.asarray(M.Blast._calc_receive_filter(np.array(H), None))
-        for nm, B in (("noise0", B0), ("noiseNone", Bn)):
+        Bi = np.asarray(M.Blast._calc_receive_filter(np.array(H), 0))
+        # alternative entry points of the same static helpers: subclass, instance
+        for nm, alt in (("via_GMDMimo_class", M.GMDMimo._calcZeroForceFilter(np.array(H))),
+                        ("via_instance", M.MRC(None)._calcZeroForceFilter(np.array(H)))):
+            if not np.array_equal(np.asarray(alt), G):
+                chk.fail(("zf_filter", "entry_point_differs", nm), case)
+        s_alt = SIGMA2[1] * fam_scale(case["fam"]) ** 2
+        Wb = np.asarray(M.MimoBase._calcMMSEFilter(np.array(H), s_alt))
+        for nm, alt in (("via_SVDMimo_class", M.SVDMimo._calcMMSEFilter(np.array(H), s_alt)),
+                        ("via_instance", M.Blast(None)._calcMMSEFilter(np.array(H), s_alt))):
+            if not np.array_equal(np.asarray(alt), Wb):
+                chk.fail(("mmse_filter", "entry_point_differs", nm), case)
+        for nm, B in (("noise0", B0), ("noiseNone", Bn), ("noise_int0", Bi)):
             if not N.close(B, math.sqrt(nt) * pinv_ref, kappa, C_RT):
                 chk.fail(("blast_receive_filter", nm, "not_sqrtNt_pinv"), case,
                          observed=N.err(B, math.sqrt(nt) * pinv_ref), expected=0)
@@ -414,7 +431,7 @@ def run_item(chk, fam, member, H):
         scalar_equiv = scheme in ("Alamouti", "MRT")
         if not scalar_equiv and not in_bound:
             continue
-        for nblk in (1, 2, 3):
+        for nblk in (0, 1, 2, 3):              # 0 blocks: an empty data vector is a multiple of the layers too
             run_roundtrip(chk, dict(base, part="roundtrip", scheme=scheme, form=form, nblk=nblk,
                                     kappa=1.0 if scalar_equiv else kappa))
 
@@ -422,7 +439,7 @@ def run_item(chk, fam, member, H):
 # ----------------------------------------------------------------------
 # E3: object-reuse histories (one object, setters / encode / decode interleaved)
 # ----------------------------------------------------------------------
-NOISE_ALPH = (None, 0.0, 0.5, 1e-2)
+NOISE_ALPH = (None, 0.0, 0, 0.5, 1e-2)       # None, float zero and int zero all mean zero forcing
 HAS_NOISE = ("Blast", "MRC", "SVDMimo", "GMDMimo")
 
 
@@ -457,6 +474,13 @@ def hist_events(scheme):
     ev += [("sinr_lin", 0.05), ("sinr_lin", 2.0), ("sinr_db", 0.05)]
     if scheme != "Alamouti":            # Alamouti has no linear precoder / filter (documented RuntimeError)
         ev += [("precoder",), ("recvfilter", None), ("recvfilter", 0.05)]
+    # invalid calls: must raise ValueError and leave the object exactly as it was
+    if scheme in HAS_NOISE:
+        ev.append(("bad_noise",))
+    if scheme in ("MRT", "Alamouti"):
+        ev.append(("bad_chan",))
+    if scheme in ("Blast", "SVDMimo", "GMDMimo"):
+        ev.append(("bad_encode",))
     return ev
 
 
@@ -467,6 +491,7 @@ class HState:
         self.ch = None          # index of the current channel (model)
         self.noise = 0.0        # current noise variance per the documented setter semantics (model)
         self.err = None
+        self.bad = None         # (event, what went wrong) of the first mishandled invalid call
 
 
 def hist_layers(scheme, H2):
@@ -492,6 +517,24 @@ def hist_build(scheme, hist):
             elif ev[0] == "noise":
                 st.obj.set_noise_var(ev[1])
                 st.noise = 0.0 if ev[1] is None else ev[1]
+            elif ev[0].startswith("bad_"):
+                before = bfs.digest(st.obj.__dict__, 12)
+                try:
+                    if ev[0] == "bad_noise":
+                        st.obj.set_noise_var(-1.0)
+                    elif ev[0] == "bad_chan":       # MRT needs Nr == 1, Alamouti needs Nt == 2
+                        st.obj.set_channel_matrix(F.generic(5, (2, 3), True, tag=42))
+                    else:                           # length not a multiple of the layers
+                        st.obj.encode(data_vec(as2d(scheme, chans[st.ch]).shape[1] + 1))
+                    what = "no exception"
+                except ValueError:
+                    what = None
+                except Exception as e:  # noqa
+                    what = "raised %s instead of ValueError" % type(e).__name__
+                if what is None and bfs.digest(st.obj.__dict__, 12) != before:
+                    what = "object changed by the rejected call"
+                if what and st.bad is None:
+                    st.bad = (ev[0], what)
             elif ev[0] == "sinr_lin":
                 st.obj.calc_linear_SINRs(ev[1])
             elif ev[0] == "sinr_db":
@@ -515,7 +558,7 @@ def hist_enabled(scheme, hist, st):
     if st.err is not None:
         return []
     if st.ch is None:
-        return [e for e in hist_events(scheme) if e[0] in ("chan", "noise")]
+        return [e for e in hist_events(scheme) if e[0] in ("chan", "noise", "bad_noise", "bad_chan")]
     return hist_events(scheme)
 
 
@@ -540,6 +583,9 @@ def hist_invariant(chk, scheme, hist, st):
         chk.fail((scheme, "history", "exception", type(st.err).__name__, last_mutator(hist[:-1])), case,
                  observed="%s: %s" % (type(st.err).__name__, st.err), expected="no exception")
         return
+    if st.bad is not None:
+        chk.fail((scheme, "history", "error_path", st.bad[0], st.bad[1]), case, observed=st.bad[1],
+                 expected="ValueError and an unchanged object")
     if st.ch is None:
         return
     when = last_mutator(hist)
@@ -556,17 +602,19 @@ def hist_invariant(chk, scheme, hist, st):
                      observed=(obj.Nr, obj.Nt, obj.getNumberOfLayers()), expected=(nr, nt, layers))
             return
         d = hist_data(scheme, H2)
+        # the object under test is used BEFORE the reference object exists (creating / configuring the
+        # fresh object must not be able to repair shared state)
+        x = np.asarray(obj.encode(d))
+        y = H2 @ x
+        r = np.asarray(obj.decode(y))
         # fresh object of the CURRENT configuration (differential reference)
         fresh = getattr(M, scheme)(np.array(chans[st.ch]))
         if scheme in HAS_NOISE:
             fresh.set_noise_var(st.noise)
-        x = np.asarray(obj.encode(d))
         xf = np.asarray(fresh.encode(d))
         if not N.close(x, xf, 1.0, C_RT):
             chk.fail((scheme, "history", "encode_differs_from_fresh_object", when), case,
                      observed=N.err(x, xf), expected=0)
-        y = H2 @ xf
-        r = np.asarray(obj.decode(y))
         rf = np.asarray(fresh.decode(y))
         k2 = kappa ** 2 if st.noise > 0 else kappa
         if not N.close(r, rf, k2, C_RT):
@@ -611,6 +659,98 @@ def run_histories(chk, depth):
         chk.extra.setdefault("history_states_per_scheme", {})[scheme] = [b.states, b.transitions]
 
 
+# ----------------------------------------------------------------------
+# E3: several live objects of the same / sibling classes used alternately
+# ----------------------------------------------------------------------
+MULTI = (("Blast", (1, 3)), ("Blast", (3, 1)), ("GMDMimo", (1, 2)), ("SVDMimo", (2, 3)), ("MRC", (1, 3)))
+MULTI_OPS = ("noise0.5", "noiseNone", "chan", "use")
+
+
+def multi_channel(scheme, idx):
+    return hist_channels(scheme)[idx - 1]       # members 1..3 of the scheme's history channels
+
+
+class MState:
+    def __init__(self):
+        self.objs, self.ch, self.noise, self.err = [], [], [], None
+
+
+def multi_build(hist):
+    from pyphysim.mimo import mimo as M
+    st = MState()
+    try:
+        for scheme, (c0, c1) in MULTI:
+            st.objs.append(getattr(M, scheme)(np.array(multi_channel(scheme, c0))))
+            st.ch.append(0)
+            st.noise.append(0.0)
+        for i, op in hist:
+            scheme, cc = MULTI[i]
+            o = st.objs[i]
+            if op == "noise0.5":
+                o.set_noise_var(0.5)
+                st.noise[i] = 0.5
+            elif op == "noiseNone":
+                o.set_noise_var(None)
+                st.noise[i] = 0.0
+            elif op == "chan":
+                st.ch[i] = 1 - st.ch[i]
+                o.set_channel_matrix(np.array(multi_channel(scheme, cc[st.ch[i]])))
+            else:
+                H2 = as2d(scheme, multi_channel(scheme, cc[st.ch[i]]))
+                o.decode(H2 @ o.encode(hist_data(scheme, H2)))
+                o.calc_SINRs(0.05)
+    except Exception as e:  # noqa
+        st.err = e
+    return st
+
+
+def multi_invariant(chk, hist, st):
+    from pyphysim.mimo import mimo as M
+    case = {"part": "multi", "history": [list(e) for e in hist]}
+    chk.count("eval_multi_states")
+    if st.err is not None:
+        chk.fail(("multi_object", "exception", type(st.err).__name__), case,
+                 observed="%s: %s" % (type(st.err).__name__, st.err), expected="no exception")
+        return
+    with chk.guard(("multi_object",), case):
+        # every live object is used first; lone reference objects are only created afterwards
+        got = []
+        for i, (scheme, cc) in enumerate(MULTI):
+            H2 = as2d(scheme, multi_channel(scheme, cc[st.ch[i]]))
+            d = hist_data(scheme, H2)
+            x = np.asarray(st.objs[i].encode(d))
+            y = H2 @ x
+            got.append((H2, d, x, y, np.asarray(st.objs[i].decode(y))))
+        for i, (scheme, cc) in enumerate(MULTI):
+            H2, d, x, y, r = got[i]
+            kappa = F.cond(H2)
+            who = "%s#%d" % (scheme, i)
+            chk.outcome("multi_config", (i, st.ch[i], st.noise[i]))
+            if st.noise[i] == 0 or scheme == "SVDMimo":
+                if not N.close(r, d, kappa, C_RT):
+                    chk.fail(("multi_object", who, "roundtrip"), case, observed=r[:6], expected=d[:6],
+                             msg="object %d (noise-free ZF) no longer recovers its data after calls on OTHER objects" % i)
+            lone = getattr(M, scheme)(np.array(multi_channel(scheme, cc[st.ch[i]])))
+            lone.set_noise_var(st.noise[i])
+            xl, rl = np.asarray(lone.encode(d)), np.asarray(lone.decode(y))
+            if not (N.close(x, xl, 1.0, C_RT) and N.close(r, rl, kappa ** 2, C_RT)):
+                chk.fail(("multi_object", who, "differs_from_lone_object"), case,
+                         observed=r[:6], expected=rl[:6], msg="model: channel %d noise %r" % (st.ch[i], st.noise[i]))
+        chk.nontriv(("multi", tuple(st.ch), tuple(st.noise)))
+
+
+def run_multi(chk, depth):
+    events = [(i, op) for i in range(len(MULTI)) for op in MULTI_OPS]
+    b = bfs.BFS(chk, build=multi_build,
+                enabled=lambda h, st: [] if st.err is not None else events,
+                invariant=lambda h, st: multi_invariant(chk, h, st),
+                canon=lambda h, st: (tuple(st.ch), tuple(st.noise), st.err is None,
+                                     bfs.digest([o.__dict__ for o in st.objs], 9)),
+                max_depth=depth, label="multi")
+    b.run([()])
+    chk.extra["multi_object_states"] = [b.states, b.transitions]
+
+
 def main(chk: Check):
     chk.assume("continuous channel space is covered by the stated finite families only (DESIGN 2.2)")
     chk.assume("Alamouti and MRT are checked on every non-zero channel of their shape (their equivalent "
@@ -634,6 +774,8 @@ def main(chk: Check):
 
     run_shards(chk, worker)
     run_histories(chk, 5 if chk.tier == "thorough" else 4)
+    run_multi(chk, 4 if chk.tier == "thorough" else 3)
+    chk.require_outcomes("multi_config", 15)
     chk.require_outcomes("history_config", 40)
     chk.sample({"part": "roundtrip", "scheme": "SVDMimo", "form": "2d", "fam": "unit3", "member": 0,
                 "H": np.ones((2, 1), dtype=complex), "nblk": 1, "kappa": 1.0})
@@ -646,6 +788,10 @@ def main(chk: Check):
 
 def replay(case, chk: Check):
     case = dict(case)
+    if case.get("part") == "multi":
+        hist = tuple((int(e[0]), e[1]) for e in case["history"])
+        multi_invariant(chk, hist, multi_build(hist))
+        return
     if case.get("part") == "history":
         hist = tuple(tuple(e) for e in case["history"])
         hist_invariant(chk, case["scheme"], hist, hist_build(case["scheme"], hist))
